@@ -174,10 +174,14 @@ func (its *WiredDatatype) excludeDuplicatedOperations(ppp *model.PushPullPack) {
 		if len(others) != len(ppp.Operations) {
 			its.L().Infof("skip %d own operations", len(ppp.Operations)-len(others))
 			ppp.Operations = others
-			return
 		}
 	}
+	// of the remaining (foreign) operations the new ones are the last `pulled`; a response that is older
+	// than the checkpoint (applied late, or a second answer to a duplicated request) brings nothing new
 	pulled := its.calculatePullingOperations(ppp.CheckPoint)
+	if pulled < 0 {
+		pulled = 0
+	}
 	if len(ppp.Operations) > pulled {
 		// for example, if len(ppp.Operations) == 5: o_1 o_2 o_3 o_4 o_5 are received, and
 		// if `pulled` == 3, o_1 and o_2 were already received,
